@@ -24,6 +24,13 @@ pub broadcast proof fn lemma_tail_refl(b: Seq<u8>)
 {
     assert(b.skip(0) =~= b);
 }
+/// a suffix as long as the whole is the whole
+pub proof fn lemma_tail_same_len(rest: Seq<u8>, b: Seq<u8>)
+    requires is_tail(rest, b), rest.len() == b.len(),
+    ensures rest == b,
+{
+    assert(b.skip(0) =~= b);
+}
 /// marks the one sequence (a decoder's own input) relative to which suffix chains are composed; it carries no
 /// information (always true) and only keeps the transitivity lemma from firing on every pair of links
 pub closed spec fn tail_base(a: Seq<u8>) -> bool { true }
